@@ -10,7 +10,7 @@ ID = "C13"
 LEVEL = "model_checking"
 LEVEL_TEXT = ("Explicit enumeration of all IPS record sequences of length <=3 over 11 record kinds (plain 1/3/65535 bytes, run-length "
               "1/4/65535, adjacent to the previous record, offset 0, offset 0xFFFFFE, payload / size+payload spelling 'EOF') x 7 deltas (zero, positive, negative, negative "
-              "result, constant expression) x 5 placements of the directive in a host program (incl. the same file included twice, and the "
+              "result, constant expression) x 6 placements of the directive in a host program (incl. the same file included twice, the directive in a macro applied twice with the delta as parameter, and the "
               "same program assembled twice in one process), assembled by the real assembler; the "
               "writer calls are compared with an independent IPS reader's record list. Every byte-prefix of well-formed files and header "
               "variants must be rejected. The only unit test parses the directive; nothing reads a patch.")
@@ -25,12 +25,12 @@ ASSUMPTIONS = ["strict IPS reader mc/ref/ips.py decides well-formedness", "rejec
 KINDS = ["p1", "p3", "pmax", "r1", "r4", "rmax", "adj", "off0", "offhi", "peof", "seof"]
 # "dr" is a := symbol that is assigned AGAIN after the directive: the delta is its value at the directive
 DELTAS = [("0", 0), ("0x10", 0x10), ("0x200", 0x200), ("0-8", -8), ("NEG", None), ("dd+4", 0x24), ("dr", 0x30)]
-PLACES = ["first", "between", "last", "block", "twice"]
+PLACES = ["first", "between", "last", "block", "twice", "macro-param"]
 HOST_BLOCK = (0x8000, bytes([0x10, 0x11, 0x34, 0x12, 0x02, 0x80, 0x01, 0x01]))
 
 
 def bound(tier):
-    return ("record sequences of length 1..%d over 11 kinds" % (4 if tier == "thorough" else 3) + " (11+121+1331%s)" % ("+14641" if tier == "thorough" else "") + " x 7 deltas x 5 placements (+ repeat); every byte-prefix of 3 well-formed "
+    return ("record sequences of length 1..%d over 11 kinds" % (4 if tier == "thorough" else 3) + " (11+121+1331%s)" % ("+14641" if tier == "thorough" else "") + " x 7 deltas x 6 placements (+ repeat); every byte-prefix of 3 well-formed "
             "files + 6 header/EOF variants")
 
 
@@ -118,7 +118,12 @@ def run_seq(prefix):
             for place in PLACES:
                 directive = f".include_ips 'p.ips', {dtext}\n"
                 expected = [(o + dval, p) for o, p, _ in parsed]
-                if place == "twice":
+                if place == "macro-param":
+                    # one directive in a macro body, delta = the macro's parameter, applied twice with different deltas
+                    src = ("dd := 0x20\ndr := 0x30\n.macro incm(dv) {\n.include_ips 'p.ips', dv\n}\n" + host("between", f"incm({dtext})\n") +
+                           f"incm({dtext}+0x2000)\ndr := 0x50\n")
+                    expected = expected + [(o + dval + 0x2000, p) for o, p, _ in parsed]
+                elif place == "twice":
                     # the same file included twice in one program, with different deltas
                     src = "dd := 0x20\ndr := 0x30\n" + host("between", directive) + f".include_ips 'p.ips', {dtext}+0x1000\n" + "dr := 0x50\n"
                     expected = expected + [(o + dval + 0x1000, p) for o, p, _ in parsed]
